@@ -20,10 +20,40 @@ REGISTRY.update(macros.CHECKS)
 
 
 def replay(pid, path):
-    """re-run the single case stored in a replay file and print what happens"""
+    """re-run the single case stored in a replay file on the current tree, let TLC judge it again"""
+    import os
+    import vlib
+    from . import adjacency as A
+    from . import search as S
     obj = json.load(open(path))
-    mod = sys.modules[REGISTRY[pid].__module__]
-    if hasattr(mod, "replay_case"):
-        return mod.replay_case(pid, obj)
-    print(json.dumps(obj, indent=1))
+    print("stored case: %s" % obj.get("description", "")[:400])
+    vlib.build_harness()
+    now = vlib.harness("one-case", {"case": path})
+    print("re-executed on the current tree: " + json.dumps(now)[:1500])
+    tag = "replay_%d" % os.getpid()
+    bad = False
+    if now.get("kind") == "adjacency" and now.get("post") is not None:
+        m = {"kind": "op", "pre": now["pre"], "op": now["op"], "observed": {"res": now["res"], "out": now["post"]["out"], "inn": now["post"]["inn"]},
+             "observed_obs": now["obs"]}
+        directed = vlib.DIRECTED[now["flavour"]]
+        n = len(now["pre"]["out"])
+        for _, reasons in A.adjudicate([m], directed, n, 3, tag):
+            mine = [x for x in reasons if x in A.REASONS.get(pid, set())]
+            print("TLC verdict now: %s" % (reasons or "accepted"))
+            bad = bool(mine)
+    elif now.get("kind") == "query":
+        q = now["query"]
+        m = dict(q, out=now["out"], inn=now["inn"], nval=now["nval"], res=now["res"], rt=now["rt"], examined=now["examined"])
+        directed = vlib.DIRECTED[now["flavour"]]
+        for mm, reasons in S.adjudicate([m], directed, len(now["out"]), tag):
+            mine = [x for x in reasons if pid in S.props_for(mm, x, directed)]
+            print("TLC verdict now: %s" % (reasons or "accepted"))
+            bad = bool(mine)
+    else:
+        print("(cases of this kind are re-run by `bin/check %s` itself)" % pid)
+    import shutil
+    shutil.rmtree(os.path.join(vlib.WORK, tag), ignore_errors=True)
+    if bad:
+        print("VIOLATION property=%s replay=%s" % (pid, path))
+        return 1
     return 0
